@@ -19,6 +19,10 @@ package engine
 
 // mapParse: the three result lists have the same length (one entry per block), the number of consumed bytes stays
 // within the text, and the blocks tile the consumed text with consecutive line numbers.
+// A parser always has its per-block function; a parallel parser has at least one worker.
+//@ type SerialParser invariant self.ParseOne != nil
+//@ type ParallelBatchParser invariant self.NumberOfWorkers >= 1
+
 //@ func (SerialParser[T]).mapParse
 //@ requires p.ParseOne != nil
 //@ ensures len(result0) == len(result1) && len(result1) == len(result3) && 0 <= result2 && result2 <= len(text)
@@ -37,8 +41,10 @@ package engine
 //@ loop 1 decreases len(text) - totalBytesConsumed
 
 // Parse: either values with one block per value and no errors, or neither values nor blocks.
+// txt.valid(text): the serial parser accepts the text (see package txt); Parse gives the symbol its meaning.
 //@ func (SerialParser[T]).Parse
 //@ requires p.ParseOne != nil
+//@ defines isnil(result2) == txt.valid(text)
 //@ ensures implies(isnil(result2), len(result0) == len(result1))
 //@ ensures implies(!isnil(result2), isnil(result0) && isnil(result1))
 
